@@ -127,7 +127,6 @@ func (in *Interp) opaqueCall(name string, fn *ssa.Function, args []Val, rt types
 	for i, a := range args {
 		snap[i] = in.snapshot(st, a)
 	}
-	in.event(Event{Kind: "call", Note: name, Args: snap})
 	pure := fn != nil && in.PureFn != nil && in.PureFn(fn)
 	if !pure {
 		eff := stdEffects[name]
@@ -141,16 +140,22 @@ func (in *Interp) opaqueCall(name string, fn *ssa.Function, args []Val, rt types
 			in.havocReach(st, a)
 		}
 	}
-	if rt == nil {
-		return nil
+	var res Val
+	switch {
+	case rt == nil:
+	case isEmptyTuple(rt):
+	case pure:
+		res = in.opaqueNamed(rt, name, args...)
+	default:
+		res = in.opaque(rt, name)
 	}
-	if tup, ok := rt.(*types.Tuple); ok && tup.Len() == 0 {
-		return nil
-	}
-	if pure {
-		return in.opaqueNamed(rt, name, args...)
-	}
-	return in.opaque(rt, name)
+	in.event(Event{Kind: "call", Note: name, Args: snap, Val: res})
+	return res
+}
+
+func isEmptyTuple(t types.Type) bool {
+	tup, ok := t.(*types.Tuple)
+	return ok && tup.Len() == 0
 }
 
 func (in *Interp) havocReach(st *State, v Val) {
